@@ -354,7 +354,8 @@ type TO2Opts struct {
 	AllowReuse bool
 	Modules    map[string]serviceinfo.DeviceModule
 	MTU        uint16
-	Transport  fdo.Transport // overrides the default transport when set
+	Transport  fdo.Transport       // overrides the default transport when set
+	Devmod     *serviceinfo.Devmod // overrides the default device descriptors when set
 }
 
 var defaultDevmod = serviceinfo.Devmod{Os: "simos", Arch: "sim64", Version: "1", Device: "simdev", FileSep: ";", Bin: "sim64"}
@@ -368,10 +369,14 @@ func (w *World) TO2(ctx context.Context, d *Device, owner string, to1d *cose.Sig
 		tr = o.Transport
 	}
 	var cred *fdo.DeviceCredential
+	devmod := defaultDevmod
+	if o.Devmod != nil {
+		devmod = *o.Devmod
+	}
 	err, _ = w.Net.SafeCall("TO2:"+d.Name, func() (e error) {
 		cred, e = fdo.TO2(ctx, tr, to1d, fdo.TO2Config{
 			Cred: *d.Cred, HmacSha256: h256, HmacSha384: h384, Key: d.Key.Key, PSS: d.Cfg.PSS(),
-			Devmod: defaultDevmod, DeviceModules: o.Modules, KeyExchange: o.Kex, CipherSuite: o.Cipher,
+			Devmod: devmod, DeviceModules: o.Modules, KeyExchange: o.Kex, CipherSuite: o.Cipher,
 			MaxServiceInfoSizeReceive: o.MTU, AllowCredentialReuse: o.AllowReuse,
 		})
 		return e
